@@ -853,8 +853,9 @@ Section AllRegs.
         * rewrite (sel_none ecn s c more); [apply app_nil_r|].
           intros r Hr. destruct (all_regs_names _ _ _ E1 r Hr) as (p' & Hp' & Ek). split.
           -- injection Ek as E2 E3. rewrite <- E2. apply Hne. right. assumption.
-          -- intro Eq. apply Hn. change (s, c) with (key_of (s, c, data)). rewrite <- Eq, <- Ek.
-             apply in_map. assumption.
+          -- intro Eq. apply Hn.
+             assert (Ek' : key_of p' = key_of (s, c, data)) by (rewrite Ek, Eq; reflexivity).
+             rewrite <- Ek'. apply in_map. assumption.
         * apply (Hne (s, c, data)). left. reflexivity.
         * apply (contig_regs_names _ _ _ _ _ E0).
       + intros r Hr. apply in_or_app. left. assumption.
@@ -864,8 +865,8 @@ Section AllRegs.
         intros r Hr. destruct p as [[s0 c0] data0].
         destruct (contig_regs_names _ _ _ _ _ E0 r Hr) as [-> ->]. split.
         * apply (Hne (s0, c0, data0)). left. reflexivity.
-        * intro Eq. apply Hn. change (s0, c0) with (key_of (s0, c0, data0)) in Eq. cbn [key_of fst snd].
-          injection Eq as -> ->. change (s, c) with (key_of (s, c, data)). apply in_map.
+        * intro Eq. injection Eq as E2 E3. subst s0 c0. apply Hn.
+          replace (key_of (s, c, data0)) with (key_of (s, c, data)) by reflexivity. apply in_map.
           apply nth_error_In with j. assumption.
       + intros r Hr. apply in_or_app. right. apply Hin. assumption.
   Qed.
@@ -924,7 +925,7 @@ Qed.
 
 Section Extract.
   Variable get : seg_desc -> outcome (list N).
-  Lemma reconstruct_all_ok k V sn : forall cs : list (name * list N),
+  Lemma reconstruct_all_ok k (V : name -> name -> list seg_desc) (sn : name) : forall cs : list (name * list N),
     (forall c, In c cs -> reconstruct_contig get k (V sn (fst c)) = Ok (snd c)) ->
     reconstruct_all get k (map (fun c => (c, V sn c)) (map fst cs)) = Ok cs.
   Proof.
@@ -977,7 +978,7 @@ Proof.
   assert (Hs' : In (fst s, map fst (snd s)) (shape_of samples)).
   { unfold shape_of. apply in_map_iff. exists s. auto. }
   rewrite (find_build _ _ (fst s, map fst (snd s)) (proj1 Hsh) Hs'). cbn [fst snd].
-  apply reconstruct_all_ok. intros c Hcin.
+  apply (reconstruct_all_ok get k (fun s c => place_list [] (sel ecn s c (sched regs))) (fst s)). intros c Hcin.
   (* the push of this contig *)
   assert (Hp : In (fst s, fst c, snd c) (pushes_of samples)).
   { unfold pushes_of. apply in_flat_map. exists s. split; [assumption|]. apply in_map_iff. exists c. auto. }
@@ -985,7 +986,7 @@ Proof.
   destruct (all_regs_sel ecn k spl segsize dec addr _ _ _ Ea (pushes_nodup _ (proj1 Hin) Hnames)
                          (pushes_nonempty _ Hin) j _ _ _ Hj) as (rs & Ers & Esel & Hrs).
   cbn [Nat.add] in Ers.
-  apply (contig_roundtrip get k spl segsize dec addr j (fst s) (fst c) (snd c) rs); try assumption.
+  apply (contig_roundtrip get ecn k spl segsize dec addr j (fst s) (fst c) (snd c) rs); try assumption.
   - intros i sg Hsg. rewrite Nat.add_0_l. apply (Hdec j (fst s) (fst c) (snd c) i sg Hj). exact Hsg.
   - intros r Hr. apply (Hst (r_desc r) (r_data r)). apply in_map_iff. exists r. split; [reflexivity|].
     apply Hrs. assumption.
@@ -1001,4 +1002,46 @@ Proof.
   intros ecn k spl segsize dec addr sched samples Hin Hbad. unfold create.
   destruct (reg_samples ecn samples [] (fun _ _ _ F => match F with end) Hin) as [_ H2].
   rewrite (H2 Hbad). reflexivity.
+Qed.
+
+(* ---- statements pinned in props/C01.v that combine the lemmas above *)
+Lemma split_overlap_proof : forall k s o pos lf rf n, (1 <= k)%nat ->
+  decision_okb k s (Split o pos lf rf) = true ->
+  exists ps pa pb,
+    seg_pieces k s (Split o pos lf rf) n = Ok ps /\ Permutation ps [pa; pb] /\
+    p_part pa = n /\ p_part pb = S n /\
+    (k < length (unorient pa))%nat /\ (k < length (unorient pb))%nat /\
+    unorient pa ++ skipn k (unorient pb) = sdata s /\
+    firstn k (unorient pb) = lastn k (unorient pa).
+Proof.
+  intros k s o pos lf rf n Hk Hd.
+  destruct (seg_pieces_ok k s _ n Hk Hd) as (ps & E).
+  destruct (seg_pieces_spec _ _ _ _ _ E) as (ps' & P & Np & Up).
+  destruct (split_fwd k s o pos lf rf Hk Hd) as (A & B & Ef & HA & HB & Hg & Ho).
+  rewrite Ef in Up. cbn [part_incr seq] in Np.
+  destruct ps' as [|pa [|pb [|? ?]]]; try discriminate.
+  cbn [map] in Np, Up. inversion Np. inversion Up. subst.
+  exists ps, pa, pb. repeat split; assumption.
+Qed.
+
+Lemma orient_ok_proof : forall k s d n ps, seg_pieces k s d n = Ok ps ->
+  exists ps', Permutation ps ps' /\ map p_part ps' = seq n (part_incr d) /\ map unorient ps' = seg_fwd k s d.
+Proof. exact seg_pieces_spec. Qed.
+
+Lemma placement_order_irrelevant_proof : forall (L L' : list (nat * seg_desc)),
+  Permutation L L' -> map fst L' = seq 0 (length L') ->
+  fold_left (fun v x => place_at v (fst x) (snd x)) L [] = map snd L'.
+Proof. exact place_perm_dense. Qed.
+
+Lemma reassemble_proof :
+  forall get k spl segsize dec addr i s c data rs L, 1 <= k <= 32 ->
+  (forall j sg, nth_error (split_at_splitters_with_size data spl k segsize) j = Some sg ->
+                decision_okb (N.to_nat k) sg (dec i j) = true) ->
+  contig_regs k spl segsize dec addr i (s, c, data) = Ok rs ->
+  (forall r, In r rs -> get (r_desc r) = Ok (r_data r)) ->
+  Permutation (map (fun r => (r_place r, r_desc r)) rs) L ->
+  reconstruct_contig get k (fold_left (fun v x => place_at v (fst x) (snd x)) L []) = Ok data.
+Proof.
+  intros get k spl segsize dec addr i s c data rs L Hk Hd E Hg P.
+  apply (contig_roundtrip get (fun x => x) k spl segsize dec addr i s c data rs L); assumption.
 Qed.
